@@ -8,10 +8,12 @@ import numpy as np
 from .core import (HarnessError, INJECTED, SimBudget, digest_field, digest_log,
                    field_obs, fhex, is_finite_field, ulp, unhex)
 from .refmodel import Model
-from .trace import FlushSink, Recorder
+from .trace import FlushSink, Recorder, patched_np
 from .world import IMPLICIT, World, deep_field_copy, mon_dict, tnum
 
 MIN_GAP_ULPS = 64
+# documented default of the library (read, not assumed, so that changing it is no alarm)
+DEFAULT_FREQ = getattr(tnum.timemodel, "_timemodel__default_monitor_freq", 10)
 
 
 class OpRecord:
@@ -51,6 +53,8 @@ class OpRecord:
         self.flush_mode = None
         self.flush_bytes = None
         self.args_mutated = None
+        self.model_failed = False
+        self.by_copy = False
 
 
 class RunResult:
@@ -74,8 +78,9 @@ def _resolve_times(places, times, hs, t0, tottime, H):
         return times[min(max(i, 0), n)]
 
     def hk(i):
-        i = min(max(i, 0), n - 1) if n > 0 else 0
-        return hs[i] if hs else H
+        if not hs:
+            return H
+        return hs[min(max(i, 0), len(hs) - 1)]
 
     for p in places:
         k = p["k"]
@@ -142,12 +147,16 @@ class Executor:
         self.origin = {}          # (op, k) -> (traj, step index, is_fallback)
         self.solver_hist = {}     # s -> list of (op index, status)
         self.op_traj = {}         # op index -> (traj, offset, N)
+        self.stop_objs = {}       # op index -> (dict object passed, pristine content)
+        self._odisc = None
 
     # ------------------------------------------------------------------
     def run(self):
         saved_clock = tnum.myclock
         old_err = np.seterr(all="ignore")
+        npseam = patched_np(self.rec, bool(self.sched.get("alloc")))
         try:
+            npseam.__enter__()
             tnum.myclock = self.rec.clock
             self.rec.clock_mode = self.sched["world"].get("clock", "normal") if self.with_faults else "normal"
             self.world = World(self.sched["world"], self.rec)
@@ -171,11 +180,18 @@ class Executor:
         except Exception as e:  # noqa
             self.res.harness_error = "%s: %s\n%s" % (type(e).__name__, e, traceback.format_exc())
         finally:
+            npseam.__exit__(None, None, None)
             tnum.myclock = saved_clock
             np.seterr(**old_err)
         self.res.events = self.rec.events
         self.res.log_digest = digest_log(self.rec.events)
         return self.res
+
+    def oracle_disc(self):
+        """Fresh, unrecorded discretisation used by the oracles for pure evaluations."""
+        if self._odisc is None:
+            self._odisc = self.world.make_disc(None)
+        return self._odisc
 
     # ------------------------------------------------------------------
     def _lookup(self, ref):
@@ -223,6 +239,10 @@ class Executor:
         if org is None:
             return [fresh], "restart from a field that is no trajectory end state: fresh"
         traj, idx, is_fallback, osolver, oop = org
+        if op["f"].get("copy"):
+            is_fallback = False  # a copy is never the solver's own final state object
+            if traj is None:
+                return [fresh], "copy of an end state with unspecified memory: fresh"
         hist = self.solver_hist.get(s, [])
         if traj is None:
             # end state of a call whose own memory was unspecified: whatever continues it is too
@@ -263,20 +283,28 @@ class Executor:
         return org
 
     def match_of(self, r):
-        """First candidate trajectory whose states equal the observed chain of
-        full steps, bit for bit (None if none does or memory is unspecified)."""
+        """First candidate trajectory that explains the whole observation, bit for
+        bit: the chain of full steps *and* every returned snapshot (None if none
+        does or memory is unspecified).  r._mismatch / r._snap_mismatch describe
+        the best failing candidate for the report."""
         if hasattr(r, "_match"):
             return r._match
         r._match = None
         r._mismatch = None
+        r._snap_mismatch = None
         if r.candidates is None:
             return None
         full = r.trace.full_steps()
         for label, traj, off in r.candidates:
             try:
                 traj.advance(off + len(full), r.cfl, r.dtlocal)
+            except np.linalg.LinAlgError:
+                traj.broken = True
             except Exception as e:  # noqa
                 raise HarnessError("reference model failed: %r" % (e,))
+            if traj.broken or len(traj.states) < off + len(full) + 1:
+                r.model_failed = True
+                return None
             ok = True
             for k, st in enumerate(full):
                 if st.dig_out != traj.digs[off + k + 1] or \
@@ -287,10 +315,44 @@ class Executor:
                         diff = max(float(np.max(np.abs(np.nan_to_num(a - b)))) for a, b in zip(st.data_out, ref.data))
                         r._mismatch = (label, k + 1, diff, st.t_out, float(ref.time))
                     break
-            if ok:
-                r._match = (label, traj, off)
-                break
+            if not ok:
+                continue
+            sm = self._snap_mismatch(r, traj, off, full)
+            if sm is not None:
+                if r._snap_mismatch is None:
+                    r._snap_mismatch = (label,) + sm
+                continue
+            r._match = (label, traj, off)
+            break
         return r._match
+
+    def _snap_mismatch(self, r, traj, off, full):
+        """P2 for one candidate: every returned snapshot produced by a side step equals
+        the model's step of the same length from the same trajectory state."""
+        if r.outcome != "returned" or not r.result:
+            return None
+        side = r.trace.side_steps()
+        for k, sn in enumerate(r.result):
+            cand = [x for x in side if x.dig_out == sn[0] and float(x.t_out).hex() == float(sn[1]).hex()]
+            if not cand:
+                continue
+            x = cand[0]
+            kk = len([y for y in full if y.idx < x.idx])
+            if x.dt_is_array or not (x.dt > 0):
+                continue  # degenerate side step: C07's business
+            if float(x.t_in).hex() != float(traj.states[off + kk].time).hex() or x.dig_in != traj.digs[off + kk]:
+                return (k, kk, "from", 0.0, sn[1])
+            try:
+                ref = traj.side(off + kk, x.dt)
+            except np.linalg.LinAlgError:
+                r.model_failed = True
+                return None
+            except Exception as e:  # noqa
+                raise HarnessError("reference model side step failed: %r" % (e,))
+            if digest_field(ref) != sn[0]:
+                d = max(float(np.max(np.abs(np.nan_to_num(a - b)))) for a, b in zip(sn[4], ref.data))
+                return (k, kk, "value", d, sn[1])
+        return None
 
     def _traj_for(self, cand, cls, f0, cfl, dtlocal):
         label, src, off = cand
@@ -330,23 +392,42 @@ class Executor:
         r.dtlocal = bool(op.get("dir", {}).get("dtlocal"))
         r.f0 = deep_field_copy(f)
         r.itstart = 0 if r.kind == "solve" else max(int(f.it), 0)
+        r.by_copy = bool(op["f"].get("copy"))
+        if r.by_copy:
+            # the caller hands over `field.copy()` (public API: "returns copy of current
+            # instance"); expectations stay those of the original field
+            f = f.copy()
         # -- model expectation, used to place deadlines ------------------
         cands, note = self._candidates(op, s, key, f, cfl, r.dtlocal)
         r.cand_note = note
         placing = cands[0] if cands else ("fresh", None, 0)
         ptraj, poff = self._traj_for(placing, r.cls, r.f0, cfl, r.dtlocal)
         nsteps = op.get("horizon", 8)
+        r.model_failed = False
         try:
             ptraj.advance(poff + nsteps + 2, cfl, r.dtlocal)
+        except np.linalg.LinAlgError:
+            # singular implicit system in the undisturbed trajectory itself: numerically
+            # inadmissible configuration (NaN/inf matrix); the operation is a discard
+            r.model_failed = True
+            ptraj.broken = True
         except Exception as e:  # model must not fail on admissible input
             raise HarnessError("reference model failed: %r" % (e,))
         times = ptraj.times()[poff:poff + nsteps + 3]
         hs = [float(np.min(x)) for x in ptraj.ticks[poff:poff + nsteps + 2]]
         H = hs[0] if hs else 1.0
+        while len(times) < nsteps + 3:
+            times.append((times[-1] if times else float(f.time)) + H)
         t0 = float(f.time)
         stop = None
         tottime = None
-        if op.get("stop") is not None:
+        shared = self.stop_objs.get(op.get("stop_share")) if op.get("stop_share") is not None else None
+        if shared is not None:
+            # the same dictionary object as an earlier call (whatever that call left in
+            # it); the oracle judges against what the caller wrote into it
+            stop, intended = shared
+            tottime = intended.get("tottime")
+        elif op.get("stop") is not None:
             stop = {}
             sp = op["stop"]
             if "tottime" in sp:
@@ -359,7 +440,12 @@ class Executor:
         if not ts and not stop:
             stop = {"maxit": 3}
         r.tsave = ts
-        r.stop = dict(stop) if stop is not None else None
+        if shared is not None:
+            r.stop = dict(shared[1])
+        else:
+            r.stop = dict(stop) if stop is not None else None
+            if stop is not None:
+                self.stop_objs[i] = (stop, dict(stop))
         tt = op.get("tsave_type", "list")
         if tt == "ndarray":
             ts_arg = np.array(ts, dtype=float)
@@ -403,7 +489,7 @@ class Executor:
             kwargs["directives"] = directives
         if sink is not None:
             kwargs["flush"] = sink
-        stop_copy = dict(stop) if stop is not None else None
+        stop_copy = dict(r.stop) if r.stop is not None else None
         # -- the call --------------------------------------------------------
         self.rec.begin_op(i, solver, r.fault_specs)
         fn = solver.solve if r.kind == "solve" else solver.restart
@@ -436,7 +522,7 @@ class Executor:
             if r.kind == "solve" and level == "call":
                 nb = 0  # solve() discards the previous output of call-level monitors
             ent = {"level": level, "name": name, "type": e.get("type", name),
-                   "frequency": e.get("frequency", 10), "data": e.get("data"),
+                   "frequency": e.get("frequency", DEFAULT_FREQ), "data": e.get("data"),
                    "before": nb,
                    "it": list(o._it) if o is not None else [],
                    "time": [float(x) for x in o._time] if o is not None else [],
